@@ -37,7 +37,7 @@ import (
 )
 
 const (
-	nShards      = 3
+	nShards       = 3
 	slotsPerShard = stor.NSlots / nShards
 )
 
@@ -75,21 +75,27 @@ type world struct {
 	nextID uint64
 	mu     sync.Mutex // guards the harness' own bookkeeping (taken through simrt)
 	// liveness clause of C17
-	writing  map[string][2]int64  // client -> [min ts, max ts] of the write in flight
-	deleting map[int][2]int64     // delete serial -> [min, max] of deletes in flight
+	writing  map[string][2]int64 // client -> [min ts, max ts] of the write in flight
+	deleting map[int][2]int64    // delete serial -> [min, max] of deletes in flight
 	delSeq   int
-	active   int      // client goroutines still running
-	queries  []*metaq // the distinct metadata queries of the program (run again at every quiescent point)
+	active   int // client goroutines still running
+	// orphan[{series, shard}]: at some moment the engine of the shard held data of the series while the index did
+	// not list it under its measurement (value: the suffix of unindexedTag). Sticky, because a later write to the
+	// series puts it back into the index without making the stranded data reachable for the deletes in between.
+	orphan  map[[2]int]string
+	queries []*metaq // the distinct metadata queries of the program (run again at every quiescent point)
 }
 
 func gen(r *hx.Run) []json.RawMessage {
 	o := r.Ops
+	stor.SetEqualsName(r.CfgBool("eqname"))
 	clients := r.CfgInt("clients", 3)
 	nops := o.Range(4, r.CfgInt("maxops", 50), "nops")
 	useSeries := 2 + o.Choose(6, "nseries")
 	useFields := 1 + o.Choose(3, "nfields")
 	var prog []json.RawMessage
 	var pool []metaq
+	var terms [][2]string
 	for i := 0; i < nops; i++ {
 		var p op
 		p.C = o.Choose(clients, "client")
@@ -139,7 +145,7 @@ func gen(r *hx.Run) []json.RawMessage {
 			p.N = []int{1, 50, 600, 1100, 2500, 11000, 31000}[o.Choose(7, "ms")]
 		case 6:
 			p.K = "meta"
-			p.MQ = genMeta(o, &pool)
+			p.MQ = genMeta(o, &pool, &terms)
 		}
 		b, _ := json.Marshal(p)
 		prog = append(prog, b)
@@ -236,6 +242,15 @@ func (w *world) doOp(p op) {
 		if werr != nil {
 			r.Violate("C17:write-error", "write", "WriteToShard failed with no fault injected: %v", werr)
 		}
+		var touched []int
+		seenS := map[int]bool{}
+		for _, c := range cells {
+			if !seenS[c.s] {
+				seenS[c.s] = true
+				touched = append(touched, c.s)
+			}
+		}
+		w.noteOrphans(touched)
 		r.Logf("%s w %d cells [%d,%d] err=%v", who, len(cells), inv, ret, werr)
 	case "d":
 		min, max := rangeOf(p.Min, p.Max)
@@ -294,6 +309,7 @@ func (w *world) doOp(p op) {
 			r.Violate("C17:delete-error", "delete", "DeleteSeriesWithPredicate(%q) failed with no fault injected: %v", text, err)
 		}
 		r.Probe("deletes")
+		w.noteOrphans(w.writtenSeries())
 		if pt != nil && strings.Contains(text, " OR ") {
 			r.Probe("probe_delete_with_or")
 		}
@@ -328,6 +344,11 @@ func (w *world) doOp(p op) {
 		} else {
 			w.runQuery(p.MQ, who)
 		}
+	}
+	if v := os.Getenv("DSIM_DEBUG_SERIES"); v != "" {
+		var ds int
+		fmt.Sscanf(v, "%d", &ds)
+		r.Logf("   after %s: %s", p.K, w.where(ds, 0))
 	}
 	if r.Sim != nil {
 		r.Sim.Progress.Add(1)
@@ -416,48 +437,150 @@ func (w *world) where(s, f int) string {
 
 // unindexedSuffix names the layout in which a delete cannot reach data: the point that came back lies in a shard
 // whose index does not list the series under its measurement (deletes walk the index), although the engine
-// holds the data.  This is what a measurement drop racing with the first write of a series leaves behind.
+// holds the data.  Two layouts are told apart:
+//   - ":recreated-series-dropped-from-index": the index still lists a tombstoned id with the same series key (the
+//     series was deleted and written again); a range delete then hands the key to the engine twice and the
+//     index reconciliation of deleteSeriesRange drops the live id although data remains;
+//   - ":series-not-in-index": no such twin; this is what a measurement drop racing with the first write of a
+//     series leaves behind.
 func (w *world) unindexedSuffix(s int, detail string) string {
 	var ts int64
 	if n, _ := fmt.Sscanf(detail, "ts=%d ", &ts); n != 1 {
 		return ""
 	}
-	if listed, ok := w.indexLists(s, shardOfTS(ts)); ok && !listed {
-		return ":series-not-in-index"
-	}
-	return ""
+	return w.orphanTag(s, shardOfTS(ts))
 }
 
-// indexLists: does the index of the shard list the series under its measurement?
-func (w *world) indexLists(s, shard int) (listed, ok bool) {
+// orphanTag: the suffix noted for the series in the shard earlier in the run, else the one of the present layout.
+func (w *world) orphanTag(s, shard int) string {
+	simrt.MuLock(&w.mu, 0)
+	tag := w.orphan[[2]int{s, shard}]
+	simrt.MuUnlock(&w.mu)
+	if tag != "" {
+		return tag
+	}
+	return w.unindexedTag(s, shard)
+}
+
+// writtenSeries lists the series the program has written so far.
+func (w *world) writtenSeries() []int {
+	simrt.MuLock(&w.mu, 0)
+	defer simrt.MuUnlock(&w.mu)
+	seen := map[int]bool{}
+	for k := range w.h.Cells {
+		seen[k.Series] = true
+	}
+	var out []int
+	for s := 0; s < stor.NSeries; s++ {
+		if seen[s] {
+			out = append(out, s)
+		}
+	}
+	return out
+}
+
+// noteOrphans records, for the given series, the shards in which the engine holds data of the series that the
+// index does not list (see world.orphan). Neither a write in flight (index entry first, data second) nor a delete
+// in flight (data first, index entry second) passes through such a state.
+func (w *world) noteOrphans(series []int) {
+	if w.r.Aborted || len(w.r.Viol) > 0 {
+		return
+	}
+	for shard := 1; shard <= nShards; shard++ {
+		for _, s := range series {
+			simrt.MuLock(&w.mu, 0)
+			known := w.orphan[[2]int{s, shard}] != ""
+			simrt.MuUnlock(&w.mu)
+			if known {
+				continue
+			}
+			tag := w.unindexedTag(s, shard)
+			if tag == "" || !w.hasData(s, shard) {
+				continue
+			}
+			simrt.MuLock(&w.mu, 0)
+			w.orphan[[2]int{s, shard}] = tag
+			simrt.MuUnlock(&w.mu)
+			w.r.Probe("probe_orphan_noted")
+		}
+	}
+}
+
+// hasData: the engine of the shard holds a value of some field of the series (cache or TSM index).
+func (w *world) hasData(s, shard int) bool {
+	sh := w.st.Shard(uint64(shard))
+	if sh == nil {
+		return false
+	}
+	e, err := sh.Engine()
+	if err != nil {
+		return false
+	}
+	te, ok := e.(*tsm1.Engine)
+	if !ok {
+		return false
+	}
+	for f := 0; f < stor.NFields; f++ {
+		key := stor.FieldKey(s, f)
+		if len(te.Cache.Values(key)) > 0 {
+			return true
+		}
+		for _, tf := range te.FileStore.Files() {
+			if tf.Contains(key) {
+				return true
+			}
+		}
+	}
+	return false
+}
+
+func (w *world) unindexedTag(s, shard int) string {
+	listed, twin, ok := w.indexLists(s, shard)
+	switch {
+	case !ok || listed:
+		return ""
+	case twin:
+		return ":recreated-series-dropped-from-index"
+	}
+	return ":series-not-in-index"
+}
+
+// indexLists: does the index of the shard list the series (its current id) under its measurement, and does it
+// list a tombstoned id whose key is the key of the series?
+func (w *world) indexLists(s, shard int) (listed, staleTwin, ok bool) {
 	sh := w.st.Shard(uint64(shard))
 	if shard == 0 || sh == nil {
-		return false, false
+		return false, false, false
 	}
 	idx, err1 := sh.Index()
 	sf, err2 := sh.SeriesFile()
 	if err1 != nil || err2 != nil {
-		return false, false
+		return false, false, false
 	}
-	sid := sf.SeriesID([]byte(stor.SeriesMeas(s)), stor.SeriesTags(s), nil)
-	itr, err := idx.MeasurementSeriesIDIterator([]byte(stor.SeriesMeas(s)))
+	name, tags := []byte(stor.SeriesMeas(s)), stor.SeriesTags(s)
+	sid := sf.SeriesID(name, tags, nil)
+	itr, err := idx.MeasurementSeriesIDIterator(name)
 	if err != nil {
-		return false, false
+		return false, false, false
 	}
 	if itr == nil {
-		return false, true
+		return false, false, true
 	}
 	defer itr.Close()
 	for {
 		e, err := itr.Next()
 		if err != nil {
-			return false, false
+			return false, false, false
 		}
 		if e.SeriesID == 0 {
-			return false, true
+			return listed, staleTwin, true
 		}
 		if e.SeriesID == sid && sid != 0 {
-			return true, true
+			listed = true
+		} else if sf.IsDeleted(e.SeriesID) {
+			if n2, t2 := sf.Series(e.SeriesID); stor.SeriesOf(n2, t2) == s {
+				staleTwin = true
+			}
 		}
 	}
 }
@@ -537,7 +660,8 @@ func (w *world) metadata(who string) {
 }
 
 func exec(r *hx.Run, prog []json.RawMessage) {
-	w := &world{r: r, h: model.NewHistory(), writing: map[string][2]int64{}, deleting: map[int][2]int64{}}
+	stor.SetEqualsName(r.CfgBool("eqname"))
+	w := &world{r: r, h: model.NewHistory(), writing: map[string][2]int64{}, deleting: map[int][2]int64{}, orphan: map[[2]int]string{}}
 	fs := r.NewFS("db")
 	clients := map[int][]op{}
 	seenQ := map[string]bool{}
@@ -607,14 +731,16 @@ func exec(r *hx.Run, prog []json.RawMessage) {
 			wg.Add(1)
 			simrt.Spawn(fmt.Sprintf("client%d", c), func() {
 				defer wg.Done()
+				defer func() {
+					simrt.MuLock(&w.mu, 0)
+					w.active--
+					simrt.MuUnlock(&w.mu)
+				}()
 				for _, p := range ops {
 					if len(r.Viol) > 0 || r.Aborted {
 						return
 					}
 					w.doOp(p)
-					if p.K == "meta" && len(order) == 1 {
-						w.metadata("single-client")
-					}
 				}
 			})
 		}
